@@ -14,7 +14,8 @@ from .. import runner
 
 PROP = "C03"
 
-UNARY = ["exp", "tanh", "transpose", "sum_keep", "row0", "unbind_mul", "relu", "neg", "sum_all_scaled"]
+UNARY = ["exp", "tanh", "transpose", "sum_keep", "row0", "unbind_mul", "relu", "neg", "sum_all_scaled",
+         "unbind_first", "softmax", "stack_self", "pow2"]
 BINARY = ["add", "mul", "matmul", "sub", "linear", "mse", "cat_sum", "div_safe"]
 UNARY_SMALL = ["exp", "transpose", "sum_keep", "unbind_mul"]
 BINARY_SMALL = ["add", "mul", "matmul"]
@@ -43,6 +44,14 @@ def apply_op(op, xs):
         return -a
     if op == "sum_all_scaled":
         return a.sum() * a                # 0-d result broadcast against its own operand
+    if op == "unbind_first":          # a multi-output op of which only one output is used
+        return synapgrad.unbind(a, 0)[0] if a.ndim >= 1 else a.clone()
+    if op == "softmax":
+        return NF.softmax(a, -1) if a.ndim >= 1 else a.clone()
+    if op == "stack_self":            # the same tensor twice in one multi-operand op
+        return synapgrad.stack([a, a], 0).sum(0)
+    if op == "pow2":
+        return a ** 2
     b = xs[1]
     if op == "add":
         return a + b
